@@ -319,6 +319,169 @@ impl VisitExpr for Recorder {
     }
 }
 
+/// A visitor that overrides EVERY method of the expression-visitor interface: it records that the node was presented and
+/// then continues exactly as the interface's default method does.  Its log is the full presentation sequence (composite nodes
+/// and leaves) that `Visitor!SProgram` prescribes.
+pub struct StructRec {
+    pub log: Vec<String>,
+    pub fail_at: Option<usize>,
+}
+impl StructRec {
+    fn enter(&mut self, label: &str) -> Result<(), String> {
+        self.log.push(label.to_string());
+        if Some(self.log.len()) == self.fail_at {
+            Err(format!("fail@{}", self.log.len()))
+        } else {
+            Ok(())
+        }
+    }
+}
+impl Visit for StructRec {
+    type Output = ();
+    type Error = String;
+}
+impl VisitExpr for StructRec {
+    fn visit_assignment_lhs(&mut self, a: &AssignmentLHS) -> visit::Result<Self> {
+        self.enter("lhs")?;
+        match a {
+            AssignmentLHS::Identifier(i) => self.visit_identifier(i),
+            AssignmentLHS::ArraySubscript(a) => self.visit_array_subscript(a),
+        }
+    }
+    fn visit_assignment_rhs(&mut self, a: &AssignmentRHS) -> visit::Result<Self> {
+        self.enter("rhs")?;
+        match a {
+            AssignmentRHS::ExpressionList(e) => self.visit_expression_list(e),
+        }
+    }
+    fn visit_poetic_number_assignment_rhs(&mut self, p: &PoeticNumberAssignmentRHS) -> visit::Result<Self> {
+        self.enter("pnrhs")?;
+        match p {
+            PoeticNumberAssignmentRHS::Expression(e) => self.visit_expression(e),
+            PoeticNumberAssignmentRHS::PoeticNumberLiteral(p) => self.visit_poetic_number_literal(p),
+        }
+    }
+    fn visit_poetic_number_literal(&mut self, p: &PoeticNumberLiteral) -> visit::Result<Self> {
+        self.enter("plit")?;
+        for e in p.elems.iter() {
+            self.visit_poetic_number_literal_elem(e)?;
+        }
+        Ok(())
+    }
+    fn visit_poetic_number_literal_elem(&mut self, p: &PoeticNumberLiteralElem) -> visit::Result<Self> {
+        let l = match p {
+            PoeticNumberLiteralElem::Word(w) => format!("pw:{}", jv::abstractise(w)),
+            PoeticNumberLiteralElem::WordSuffix(w) => format!("ps:{}", jv::abstractise(w)),
+            PoeticNumberLiteralElem::Dot => "pd".into(),
+        };
+        self.enter(&l)
+    }
+    fn visit_array_push_rhs(&mut self, a: &ArrayPushRHS) -> visit::Result<Self> {
+        self.enter("pushrhs")?;
+        match a {
+            ArrayPushRHS::ExpressionList(e) => self.visit_expression_list(e),
+            ArrayPushRHS::PoeticNumberLiteral(p) => self.visit_poetic_number_literal(p),
+        }
+    }
+    fn visit_array_pop_expr(&mut self, a: &ArrayPopExpr) -> visit::Result<Self> {
+        self.enter("pop")?;
+        self.visit_primary_expression(&a.array)
+    }
+    fn visit_binary_operator(&mut self, o: BinaryOperator) -> visit::Result<Self> {
+        self.enter(&format!("op:{}", op_name(o)))
+    }
+    fn visit_unary_operator(&mut self, o: UnaryOperator) -> visit::Result<Self> {
+        self.enter(&format!("un:{}", if o == UnaryOperator::Minus { "neg" } else { "not" }))
+    }
+    fn visit_expression_list(&mut self, e: &ExpressionList) -> visit::Result<Self> {
+        self.enter("elist")?;
+        self.visit_expression(&e.first)?;
+        for x in e.rest.iter() {
+            self.visit_expression(x)?;
+        }
+        Ok(())
+    }
+    fn visit_expression(&mut self, e: &Expression) -> visit::Result<Self> {
+        self.enter("expr")?;
+        match e {
+            Expression::PrimaryExpression(e) => self.visit_primary_expression(e),
+            Expression::BinaryExpression(e) => self.visit_binary_expression(e),
+            Expression::UnaryExpression(e) => self.visit_unary_expression(e),
+        }
+    }
+    fn visit_primary_expression(&mut self, e: &PrimaryExpression) -> visit::Result<Self> {
+        self.enter("prim")?;
+        match e {
+            PrimaryExpression::Literal(e) => self.visit_literal_expression(e),
+            PrimaryExpression::Identifier(i) => self.visit_identifier(i),
+            PrimaryExpression::ArraySubscript(a) => self.visit_array_subscript(a),
+            PrimaryExpression::FunctionCall(f) => self.visit_function_call(f),
+            PrimaryExpression::ArrayPop(a) => self.visit_array_pop_expr(a),
+        }
+    }
+    fn visit_binary_expression(&mut self, e: &BinaryExpression) -> visit::Result<Self> {
+        self.enter("bin")?;
+        self.visit_expression(&e.lhs)?;
+        self.visit_binary_operator(e.operator)?;
+        self.visit_expression_list(&e.rhs)
+    }
+    fn visit_unary_expression(&mut self, e: &UnaryExpression) -> visit::Result<Self> {
+        self.enter("unary")?;
+        self.visit_unary_operator(e.operator)?;
+        self.visit_expression(&e.operand)
+    }
+    fn visit_array_subscript(&mut self, a: &ArraySubscript) -> visit::Result<Self> {
+        self.enter("sub")?;
+        self.visit_primary_expression(&a.array)?;
+        self.visit_primary_expression(&a.subscript)
+    }
+    fn visit_literal_expression(&mut self, e: &WithRange<LiteralExpression>) -> visit::Result<Self> {
+        let l = match &e.0 {
+            LiteralExpression::Mysterious => "lit:mysterious".into(),
+            LiteralExpression::Null => "lit:null".into(),
+            LiteralExpression::Boolean(b) => format!("lit:{}", b),
+            LiteralExpression::Number(_) => "lit:number".into(),
+            LiteralExpression::String(s) => format!("lit:str:{}", jv::abstractise(s)),
+        };
+        self.enter(&l)
+    }
+    fn visit_function_call(&mut self, f: &FunctionCall) -> visit::Result<Self> {
+        self.enter("call")?;
+        self.visit_variable_name(f.name.as_ref())?;
+        for a in f.args.iter() {
+            self.visit_expression(a)?;
+        }
+        Ok(())
+    }
+    fn visit_identifier(&mut self, i: &WithRange<Identifier>) -> visit::Result<Self> {
+        self.enter("ident")?;
+        match &i.0 {
+            Identifier::VariableName(n) => self.visit_variable_name(WithRange(&n, i.1.clone())),
+            Identifier::Pronoun => self.visit_pronoun(i.1.clone()),
+        }
+    }
+    fn visit_pronoun(&mut self, _: SourceRange) -> visit::Result<Self> {
+        self.enter("pro")
+    }
+    fn visit_variable_name(&mut self, n: WithRange<&VariableName>) -> visit::Result<Self> {
+        self.enter("name")?;
+        match n.0 {
+            VariableName::Simple(x) => self.visit_simple_identifier(WithRange(&x, n.1.clone())),
+            VariableName::Common(x) => self.visit_common_identifier(WithRange(&x, n.1.clone())),
+            VariableName::Proper(x) => self.visit_proper_identifier(WithRange(&x, n.1.clone())),
+        }
+    }
+    fn visit_simple_identifier(&mut self, n: WithRange<&SimpleIdentifier>) -> visit::Result<Self> {
+        self.enter(&format!("id:{}", n.0 .0))
+    }
+    fn visit_common_identifier(&mut self, n: WithRange<&CommonIdentifier>) -> visit::Result<Self> {
+        self.enter(&format!("id:{} {}", n.0 .0, n.0 .1))
+    }
+    fn visit_proper_identifier(&mut self, n: WithRange<&ProperIdentifier>) -> visit::Result<Self> {
+        self.enter(&format!("id:{}", n.0 .0.join(" ")))
+    }
+}
+
 pub fn check_visit(rec: &J) -> Verdict {
     let naming = Naming::default();
     let prog = Builder { naming: &naming }.program(&rec["prog"]);
@@ -360,6 +523,43 @@ pub fn check_visit(rec: &J) -> Verdict {
                 }
             }
             Err(p) => return Verdict::viol(format!("visitor runner panicked: {}", panic_msg(p)), J::Null),
+        }
+    }
+    // the full presentation sequence (composite nodes too), and stopping at every position of it
+    if let Some(full) = rec.get("full").and_then(|f| f.as_array()) {
+        let exp_full: Vec<String> = full.iter().map(|x| x.as_str().unwrap().to_string()).collect();
+        let swalk = |fail_at: Option<usize>| {
+            catch_unwind(AssertUnwindSafe(|| {
+                let mut r = ExprVisitorRunner::with_inner(StructRec { log: Vec::new(), fail_at });
+                let out = r.visit_program(&prog);
+                (out, r.inner().log)
+            }))
+        };
+        match swalk(None) {
+            Ok((Ok(()), log)) => {
+                if log != exp_full {
+                    let at = log.iter().zip(exp_full.iter()).position(|(a, b)| a != b).unwrap_or(log.len().min(exp_full.len()));
+                    return Verdict::viol(
+                        format!("presentation sequence differs from the model at position {}: {:?} where the model has {:?}", at + 1, log.get(at), exp_full.get(at)),
+                        json!({"full": log}),
+                    );
+                }
+            }
+            Ok((Err(e), _)) => return Verdict::viol(format!("walk failed without a failing callback: {}", e), J::Null),
+            Err(p) => return Verdict::viol(format!("visitor runner panicked: {}", panic_msg(p)), J::Null),
+        }
+        for k in 1..=exp_full.len() {
+            match swalk(Some(k)) {
+                Ok((out, log)) => {
+                    if out != Err(format!("fail@{}", k)) || log.len() != k {
+                        return Verdict::viol(
+                            format!("presentation {} ({}) failed but the walk returned {:?} after {} presentations", k, exp_full[k - 1], out, log.len()),
+                            json!({"full": log}),
+                        );
+                    }
+                }
+                Err(p) => return Verdict::viol(format!("visitor runner panicked: {}", panic_msg(p)), J::Null),
+            }
         }
     }
     Verdict::ok(exp_log.len() > 1)
